@@ -318,11 +318,20 @@ func memberNamedByField(w *World, wc *wireCtx, r *Report, prop string) {
 			txt string
 		}
 		var bad, badT []hit
+		spellings := map[string][]hit{} // how the name of an instantiated packet type is cased: raw, ToCamel, ...
 		n, nT := 0, 0
 		judge := func(ins ssa.Instruction, before, after string, v ssa.Value) {
 			// the converse position: an instantiated type (`new T(`, `&T{`) spelled from the field's name only
 			if strings.HasSuffix(before, "new ") && strings.HasPrefix(after, "(") || strings.HasSuffix(before, "&") && strings.HasPrefix(after, "{") {
 				nT++
+				if s := nf.of(v, 0); s&nsType != 0 && s&nsField == 0 {
+					for _, sp := range caseSpellings(v, 0) {
+						if sp == "param" || sp == "?" {
+							continue // not followed to its origin: not judged
+						}
+						spellings[sp] = append(spellings[sp], hit{ins, sp})
+					}
+				}
 				if s := nf.of(v, 0); s&nsField != 0 && s&nsType == 0 && !underInlineObject(ins.Block()) {
 					tail := before
 					if len(tail) > 24 {
@@ -441,9 +450,102 @@ func memberNamedByField(w *World, wc *wireCtx, r *Report, prop string) {
 				r.fail(rule, keyT, w.instrPos(badT[0].ins), "the type that is instantiated is spelled from the field's name (Field.Name) and not from its type: for `Header hdr,` the emitted code instantiates a type `hdr` that does not exist - "+strings.Join(where, "; "))
 			}
 		}
+		// one packet, one type name: every place that instantiates the type of a packet cases its name the same way (the declaration
+		// can only agree with one of them)
+		if len(spellings) > 0 {
+			keyS := lang + ": an instantiated packet type is cased the same way everywhere"
+			if len(spellings) == 1 {
+				r.pass(rule, keyS, w.pos(own[0].Pos()), strings.Join(sortedKeys(spellings), ","))
+			} else {
+				var where []string
+				for _, sp := range sortedKeys(spellings) {
+					hs := spellings[sp]
+					sort.Slice(hs, func(i, j int) bool { return hs[i].ins.Pos() < hs[j].ins.Pos() })
+					where = append(where, fmt.Sprintf("%s at %s (%s)", sp, w.instrPos(hs[0].ins), fnKey(hs[0].ins.Parent())))
+				}
+				r.fail(rule, keyS, w.pos(own[0].Pos()), "the name of the packet type that is instantiated is cased in different ways in one generator - "+strings.Join(where, "; ")+": for a packet name the case functions change (`Order_item`, `orderItem`) at most one of them names the declared type, the other does not compile")
+			}
+		}
 	}
-	_ = 0
 	if total == 0 {
 		r.fail(rule, "receiver-member holes found", "internal/parser", "no emission of the form <receiver>.<hole> found in any codec generator: the rule lost its subject")
 	}
+}
+
+// caseSpellings: how a name is cased on its way into the text: the outermost strcase function applied ("raw" for none), over the
+// alternatives of phis and through the generators' own one-result helpers.
+func caseSpellings(v ssa.Value, depth int) []string {
+	if depth > 6 || v == nil {
+		return []string{"?"}
+	}
+	switch x := v.(type) {
+	case *ssa.MakeInterface:
+		return caseSpellings(x.X, depth+1)
+	case *ssa.ChangeType:
+		return caseSpellings(x.X, depth+1)
+	case *ssa.Phi:
+		set := map[string]bool{}
+		for _, e := range x.Edges {
+			for _, s := range caseSpellings(e, depth+1) {
+				set[s] = true
+			}
+		}
+		return sortedBoolKeys(set)
+	case *ssa.Call:
+		if f := x.Call.StaticCallee(); f != nil {
+			if f.Pkg != nil && f.Pkg.Pkg.Name() == "strcase" {
+				return []string{f.Name()}
+			}
+			if f.Blocks != nil && theWorld != nil && theWorld.isSubjectFunc(f) && f.Signature.Results().Len() == 1 {
+				set := map[string]bool{}
+				for _, b := range f.Blocks {
+					if ret, ok := b.Instrs[len(b.Instrs)-1].(*ssa.Return); ok && len(ret.Results) == 1 {
+						for _, s := range caseSpellings(ret.Results[0], depth+1) {
+							set[s] = true
+						}
+					}
+				}
+				// a helper that hands a parameter through: the spelling is the argument's
+				if set["param"] {
+					delete(set, "param")
+					for _, a := range x.Call.Args {
+						if isStringType(a.Type()) {
+							for _, s := range caseSpellings(a, depth+1) {
+								set[s] = true
+							}
+						}
+					}
+				}
+				return sortedBoolKeys(set)
+			}
+		}
+		return []string{"raw"}
+	case *ssa.Parameter:
+		// a helper's parameter: what its call sites hand in
+		fn := x.Parent()
+		idx := -1
+		for i, p := range fn.Params {
+			if p == x {
+				idx = i
+			}
+		}
+		set := map[string]bool{}
+		if theWorld != nil && idx >= 0 {
+			if n := theWorld.CallGraph().Nodes[fn]; n != nil {
+				for _, e := range n.In {
+					if e.Site == nil || e.Site.Common().IsInvoke() || idx >= len(e.Site.Common().Args) {
+						continue
+					}
+					for _, s := range caseSpellings(e.Site.Common().Args[idx], depth+1) {
+						set[s] = true
+					}
+				}
+			}
+		}
+		if len(set) == 0 {
+			return []string{"param"}
+		}
+		return sortedBoolKeys(set)
+	}
+	return []string{"raw"}
 }
